@@ -151,7 +151,8 @@ theorem C17_budget_independent {ρ : Type} (step : Regs → Step ρ) (ks : List 
 example : runBudgets (catStep [97] [98]) [1, 1, 1] {} = .finished [97, 98] { op1 := [97], op2 := [98] } :=
   C17_budget_independent _ _ 3 _ _ _ rfl (by decide)
 
-/-- all six results at every slicing, in one statement -/
+/-- the results of all six instructions in one statement: from registers with both indices 0, for valid
+    UTF-8 operands, at every slicing `ks` whose budgets add up to at least `|a| + |b| + 1` steps -/
 theorem C17_all_budgets (a b : Bytes) (r : Regs) (h1 : r.idx1 = 0) (h2 : r.idx2 = 0)
     (va : utf8Valid a = true) (vb : utf8Valid b = true) (ks : List Nat)
     (hk : a.length + b.length + 1 ≤ ks.sum) :
